@@ -31,26 +31,49 @@ META = {
 
 def classify(expr_sx: str, e) -> str:
     """Signature of a failing input, specific enough that a different failure is still reported."""
-    import jax
-    from furax._base.diagonal import DiagonalInverseOperator
-    sing = False
-
-    def walk(o):
-        nonlocal sing
-        if isinstance(o, DiagonalInverseOperator):
-            if bool((np.asarray(o._diagonal) == 0).any()):
-                sing = True
-        for name in ('operands', 'blocks'):
-            if hasattr(o, name):
-                for x in jax.tree.leaves(getattr(o, name), is_leaf=gen.is_op_leaf):
-                    walk(x)
-        if hasattr(o, 'operator'):
-            walk(o.operator)
-
-    walk(e)
-    if sing:
-        return 'singular-diagonal-pseudo-inverse-cancelled-as-inverse'
     return 'reduce-changes-map'
+
+
+def pinv_case(ctx: Ctx, stream: str, i: int) -> None:
+    """Finding F13: a diagonal operator with zero entries has a pseudo-inverse D⁺ that is a lazy *inverse*
+    object, so `D⁺ @ D` is cancelled although it denotes a projector.  The failure is attributed to F13
+    only when the very same chain with the zeros replaced by ones passes the oracle."""
+    import jax.numpy as jnp
+    from furax._base.core import CompositionOperator
+    from furax._base.diagonal import DiagonalOperator
+    rng = ctx.rng(stream, i)
+    n = rng.choice([2, 3, 4])
+    s = gen.S(n) if rng.random() < 0.6 else [gen.S(n), gen.S(n)]
+    vals = [rng.choice(gen.DIAGVALS) for _ in range(n)]
+    for z in rng.sample(range(n), rng.randint(1, n - 1)):
+        vals[z] = 0.0
+    left, _ = gen.gen_chain(rng, s, rng.randint(0, 2), 1, p_pattern=0.0)
+    right = [gen.gen_endo(rng, s, 1) for _ in range(rng.randint(0, 2))]
+    order = rng.random() < 0.5
+
+    def build(v):
+        d = DiagonalOperator(gen.arr(v), axis_destination=-1, in_structure=s)
+        pair = [d.I, d] if order else [d, d.I]
+        return CompositionOperator(list(reversed(left)) + pair + right)
+
+    e0 = build(vals)
+    e1 = build([1.0 if v == 0 else v for v in vals])
+    enc = Encoder()
+    esx = enc.op(e0)
+
+    def holds(e):
+        st, red = safe(e.reduce)
+        if st != 'ok':
+            return False
+        return gen.close(gen.dense(e), gen.dense(red))
+
+    ok0, ok1 = holds(e0), holds(e1)
+    if not ok0:
+        sig = 'singular-diagonal-pseudo-inverse-cancelled-as-inverse' if ok1 else 'reduce-changes-map'
+        ctx.fail(stream, i, sig, 'D⁺ @ D (D diagonal with zero entries) is reduced to the identity: dense matrix '
+                 'of reduce(e) differs from dense matrix of e', {'expr': sx(esx)[:3000], 'diag': vals})
+    ctx.count('pinv:' + ('holds' if ok0 else 'fails'))
+    ctx.case(sx(esx), True, sample=None)
 
 
 def one_case(ctx: Ctx, stream: str, i: int, max_len: int, depth: int) -> None:
@@ -81,8 +104,14 @@ def one_case(ctx: Ctx, stream: str, i: int, max_len: int, depth: int) -> None:
             ctx.fail(stream, i, 'reduce-changes-structure', 'reduce() changed in/out structure',
                      {'expr': sx(esx)[:3000]})
         else:
-            m0, m1 = gen.dense(e), gen.dense(red)
-            if not gen.close(m0, m1):
+            st0, m0 = safe(gen.dense, e)
+            st1, m1 = safe(gen.dense, red)
+            if st0 != 'ok' or st1 != 'ok':
+                which = 'unreduced' if st0 != 'ok' else 'reduced'
+                ctx.fail(stream, i, f'apply-raises-{which}-{st0 if st0 != "ok" else st1}',
+                         f'applying the {which} expression to a basis vector raised: {m0 if st0 != "ok" else m1}',
+                         {'expr': sx(esx)[:3000], 'planted': info['planted']})
+            elif not gen.close(m0, m1):
                 ctx.fail(stream, i, classify(sx(esx), e),
                          'dense matrix of reduce(e) differs from dense matrix of e',
                          {'expr': sx(esx)[:3000], 'planted': info['planted'],
@@ -119,3 +148,6 @@ def run(ctx: Ctx) -> None:
     for i in range(n):
         if ctx.want('expr', i):
             one_case(ctx, 'expr', i, max_len, depth)
+    for i in range(8 if ctx.tier == 'quick' else 100):
+        if ctx.want('pinv', i):
+            pinv_case(ctx, 'pinv', i)
